@@ -192,8 +192,9 @@ type VarSpec struct {
 }
 
 type EnvSpec struct {
-	NS   map[string]string `json:"ns,omitempty"`
-	Vars []VarSpec         `json:"vars,omitempty"`
+	NS    map[string]string `json:"ns,omitempty"`
+	Vars  []VarSpec         `json:"vars,omitempty"`
+	Funcs []string          `json:"funcs,omitempty"` // stock user functions, see stockFuncs
 }
 
 func parseNum(s string) float64 {
@@ -232,9 +233,13 @@ func (e EnvSpec) RefEnv(d *adoc.Doc) *refxp.Env {
 			for _, p := range v.Nodes {
 				ns = append(ns, d.Resolve(p))
 			}
-			val = ns
+			val = refxp.SortUnique(ns)
 		}
 		env.Vars[refxp.Name{Space: v.Space, Local: v.Local}] = val
+	}
+	for _, f := range e.Funcs {
+		sf := stockFuncs[f]
+		env.Funcs[refxp.Name{Space: sf.space, Local: sf.local}] = sf.ref
 	}
 	return env
 }
@@ -263,7 +268,43 @@ func (e EnvSpec) ImplSettings(b *impl.Binding) []xsel.ContextApply {
 		}
 		out = append(out, xsel.WithVariableNS(v.Space, v.Local, val))
 	}
+	for _, f := range e.Funcs {
+		sf := stockFuncs[f]
+		out = append(out, xsel.WithFunctionNS(sf.space, sf.local, sf.impl(b)))
+	}
 	return out
+}
+
+// stockFunc is a user function available on both sides under one name.
+type stockFunc struct {
+	space, local string
+	ref          refxp.UserFunc
+	impl         func(b *impl.Binding) xsel.Function
+}
+
+var stockFuncs = map[string]stockFunc{
+	// els(): all elements of the document, in document order
+	"els": {"", "els",
+		func(ctx refxp.Ctx, args []refxp.Value) (refxp.Value, error) {
+			ns := refxp.NodeSet{}
+			for _, n := range ctx.Env.Doc.Nodes {
+				if n.Kind == adoc.Elem {
+					ns = append(ns, n)
+				}
+			}
+			return ns, nil
+		},
+		func(b *impl.Binding) xsel.Function {
+			return func(c xsel.Context, args ...xsel.Result) (xsel.Result, error) {
+				ns := xsel.NodeSet{}
+				for _, n := range b.Doc.Nodes {
+					if n.Kind == adoc.Elem {
+						ns = append(ns, b.ToCur[n])
+					}
+				}
+				return ns, nil
+			}
+		}},
 }
 
 // ---- replayable expression case -------------------------------------------
